@@ -11,6 +11,9 @@ import Lattigo.Model.ParamsGen
     eval t= q= slots= cheb= lazy= lvl= scale= tscale= x= map=<a,b|c,d>|- (P <coeffs>)+
                                       → tr=<trace> st=<status> [lvl= scale= vals= ps=]
     eval-ckks-lazy …                  same as eval (ckks, Lazy = true): needs the ckks MulThenAdd fix C06-6/7
+    normiters <num> <den>             → steps of inverse.IntervalNormalization for log2max = num/den
+    chebeval <a> <b> <x> <coeffs>     → bignum.Polynomial.Evaluate, Chebyshev basis on [a, b] (integral change of basis)
+    cob slots= map= iv=<a:b|a:b>      → PolynomialVector.ChangeOfBasis: per-slot 8·scalar ; 8·constant
     optional tokens of eval: inv=0|1 (bgv.Evaluator.ScaleInvariant), odd=0|1 even=0|1 (IsOdd/IsEven as
     set by the user), pre=<op,op,…>|- : EvaluateFromPowerBasis on a basis the caller filled with
     g<n> / g<n>l (GenPower(n, lazy=false/true)), f<n>:<level>:<scale> (fresh encryption of x^n), d<n> (delete X^n)
@@ -93,6 +96,16 @@ def evalLine (toks : List String) : Option String := do
       let ps := if odd && even then ps else o.val
       some s!"tr={trs} st={st} lvl={o.level} scale={o.scale} vals={showIVec o.val} ps={showIVec ps}"
 
+def cobLine (toks : List String) : Option String := do
+  let slots ← (kv? toks "slots") >>= parseNat?
+  let m ← (kv? toks "map") >>= parseMap
+  let ivs ← ((← kv? toks "iv").splitOn "|").mapM fun e =>
+    match e.splitOn ":" with
+    | [a, b] => do some ((← parseInt? a), (← parseInt? b))
+    | _ => none
+  let (s8, c8) := changeOfBasisVec8 slots (m.getD []) ivs
+  some s!"{showIVec s8};{showIVec c8}"
+
 def handle (toks : List String) : String :=
   match toks with
   | ["split", n] =>
@@ -122,6 +135,15 @@ def handle (toks : List String) : String :=
       let (q, r) := factorize intOps (cheb == 1) n cs
       s!"{showIVec q} {showIVec r}"
     | _, _, _ => badOp
+  | ["normiters", num, den] =>
+    match parseNat? num, parseNat? den with
+    | some num, some den => toString (normIters num den)
+    | _, _ => badOp
+  | ["chebeval", a, b, x, cs] =>
+    match parseInt? a, parseInt? b, parseInt? x, parseIVec? cs with
+    | some a, some b, some x, some cs => toString (chebEval a b x cs)
+    | _, _, _, _ => badOp
+  | "cob" :: rest => (cobLine rest).getD badOp
   | "eval" :: rest => (evalLine rest).getD badOp
   | "eval-ckks-lazy" :: rest => (evalLine rest).getD badOp   -- depends on the ckks MulThenAdd fix (C06-6/7)
   | _ => badOp
